@@ -72,9 +72,12 @@ def _default_matches(v, d):
 def effective_defaults(model, cname):
     c = model.cspecs[cname]
     out = {}
+    owner = cname       # the class whose __init__ is used
+    while model.cspecs[owner].get('inherit_init'):
+        owner = model.cspecs[owner]['bases'][0]
     for p in c.get('params', []):
         if 'default' in p:
-            out[p['name']] = model.ns['_D_%s_%s' % (cname, p['name'])]
+            out[p['name']] = model.ns['_D_%s_%s' % (owner, p['name'])]
     # _yatiml_defaults is looked up with getattr(): the nearest class in the
     # MRO that defines it wins (as a whole)
     for klass in model.classes[cname].__mro__:
@@ -103,6 +106,12 @@ def _sweeten_op(model, cname, op, data):
         return collections.OrderedDict(
             (key, v) for key, v in data.items()
             if not (key in defs and _default_matches(v, defs[key])))
+    if k == 'add_int' and isinstance(data, dict):
+        v = data.get(op[1])
+        if type(v) is int:
+            data = collections.OrderedDict(data)
+            data[op[1]] = v + op[2]
+        return data
     if k == 'int_to_word' and isinstance(data, dict):
         v = data.get(op[1])
         if type(v) is int and 0 <= v < len(M.WORDS):
